@@ -113,3 +113,12 @@ def from_json(o):
     if isinstance(o, list):
         return [from_json(x) for x in o]
     return o
+
+
+def pick(x, n):
+    """Concrete value of a symbolic int known to lie in range(n), obtained by branching on it (one path per value,
+    so CrossHair's path tree stays exhaustive - unlike realize(), which asks the solver for one model value)."""
+    for i in range(n):
+        if x == i:
+            return i
+    raise ValueError("pick: value outside range(%d)" % n)
